@@ -45,11 +45,11 @@ def driver(scenarios, tag):
     return vf.run_driver(PID, PKG, TEST, scenarios, tag)
 
 
-def _window(period, at, fork):
-    start = max(period * EPP, fork)
-    first = start * SPE
+def _window(period, at, fork, spe, epp):
+    start = max(period * epp, fork)
+    first = start * spe
     first = max(first - 1 if first > 0 else 0, at)
-    last = max((period + 1) * EPP, fork) * SPE - 2
+    last = max((period + 1) * epp, fork) * spe - 2
     return list(range(first, last + 1))
 
 
@@ -57,6 +57,7 @@ def features(s):
     """What a scenario exercises (to pick and describe scenarios and to match known findings on the
     specific input; never for the verdict)."""
     steps = s["steps"]
+    spe, epp = s.get("spe", SPE), s.get("epp", EPP)
     now, fork = steps[0]["now"], steps[0]["fork"]
     members = {}
     f = {"signer": s.get("signer", "scripted"), "schedule_from_epoch0": False, "schedule_before_fork": False,
@@ -73,14 +74,14 @@ def features(s):
         elif ev == "Head":
             head = st["root"]
         elif ev == "Schedule":
-            period = st["epoch"] // EPP
-            if now // SPE < fork:
+            period = st["epoch"] // epp
+            if now // spe < fork:
                 f["schedule_before_fork"] = True
             else:
-                w = [x for x in _window(period, now, fork) if not (st["nc"] and x == now)]
+                w = [x for x in _window(period, now, fork, spe, epp) if not (st["nc"] and x == now)]
                 f["window"] |= bool(w)
                 # the slot before the first slot of the period does not exist: first period of the chain
-                if max(period * EPP, fork) == 0 and now // SPE == 0 and w:
+                if max(period * epp, fork) == 0 and now // spe == 0 and w:
                     f["schedule_from_epoch0"] = True
         elif ev == "FireMessage":
             healthy = [m for m in members.values() if m["acct"] and not (m["zero"] and f["signer"] == "scripted")]
@@ -112,7 +113,7 @@ def generate(tier, pool):
     """Start the three scenario generators (TLC simulation) on the thread pool."""
     quick = tier == "quick"
     return [
-        pool.submit(vf.tlc_scenarios, PID, "Scen_SyncCommittee", "Scen_SyncCommittee.cfg", num=260 if quick else 4000,
+        pool.submit(vf.tlc_scenarios, PID, "Scen_SyncCommittee", "Scen_SyncCommittee.cfg", num=260 if quick else 2000,
                     depth=12, name="scen-mess"),
         pool.submit(vf.tlc_scenarios, PID, "Scen_SyncCommittee", "Scen_SyncCommittee_window.cfg", num=60 if quick else 1200,
                     depth=8, name="scen-window", aseed=vf.seed() + 1000),
@@ -212,6 +213,17 @@ def run(tier):
         v.add_mc(vf.tlc_exhaustive(PID, "SyncCommittee", "MC_SyncCommittee_window_big.cfg", timeout=1200))
     vf.conformance(v, sc, driver, "Trace_SyncCommittee", "Trace_SyncCommittee.cfg", sig_of, nontrivial,
                    chunk=None if tier == "quick" else 1500)
+    if tier == "thorough":
+        # a second geometry: 3 slots per epoch, 3 epochs per period, a 512-member committee on 4 subnets
+        hs = vf.tlc_scenarios(PID, "Scen_SyncCommittee", "Scen_SyncCommittee_b.cfg", num=1500, depth=11, name="scen-b",
+                              aseed=vf.seed() + 3000)
+        random.Random(vf.seed()).shuffle(hs)
+        scb = []
+        for i, h in enumerate(hs[:4000]):
+            zero = any(st["ev"] == "Member" and st["acct"] and st["zero"] for st in h)
+            scb.append({"sc": 100000 + i, "signer": "real" if (not zero and i % 3 == 0) else "scripted",
+                        "spe": 3, "epp": 3, "steps": h})
+        vf.conformance(v, scb, driver, "Trace_SyncCommittee", "Trace_SyncCommittee_b.cfg", sig_of, nontrivial, chunk=1500)
     v.coverage["rule"] = ("behaviours of SyncCommittee.tla generated by TLC simulation (seeded; a messenger-centred and a "
                           "window-centred constant set), replayed on the real controller + sync committee messenger + "
                           "aggregator (+ real signer for a third); non-trivial = a Schedule with a non-empty window or a "
@@ -223,5 +235,6 @@ def replay(path):
     v = vf.Verdict(PID, "quick")
     with open(os.path.join(path, "scenario.json")) as fh:
         s = json.load(fh)
-    vf.conformance(v, [s], driver, "Trace_SyncCommittee", "Trace_SyncCommittee.cfg", sig_of, nontrivial)
+    cfg = "Trace_SyncCommittee_b.cfg" if s.get("spe", SPE) == 3 else "Trace_SyncCommittee.cfg"
+    vf.conformance(v, [s], driver, "Trace_SyncCommittee", cfg, sig_of, nontrivial)
     return 1 if v.violations else 0
